@@ -31,6 +31,8 @@ func main() {
 		urlMain(os.Args[2:])
 	case "struct":
 		structMain(os.Args[2:])
+	case "shared":
+		sharedMain(os.Args[2:])
 	case "schema":
 		schemaMain(os.Args[2:])
 	default:
